@@ -28,7 +28,8 @@ from harness import pdfwriter as W
 LEVEL = "proof"
 RULE = ("operator programs following the content-stream grammar of ISO 32000-1 Figure 9 (q Q cm, colour operators, "
         "text state, BT..ET with positioning and showing operators, Do of form XObjects nested <= 3 with own "
-        "Matrix/Resources), dyadic operands, random width tables incl. code 32 and codes outside the table, a share of "
+        "Matrix/Resources; interleaved with the operators outside the property's list - general graphics state, path "
+        "construction / painting / clipping and sh at page level, marked content and BX/EX also inside text objects), dyadic operands, random width tables incl. code 32 and codes outside the table, a share of "
         "operators with missing / ill-typed operands, serialised and split into 1-4 streams at token boundaries; a second "
         "'wild' stream (excess operands, unknown operators, text operators outside BT, q/Q inside BT, unknown resources) "
         "is used for the model/implementation tie only.  Resources define colour spaces (aliases, ICCBased, CIE-based, "
@@ -56,6 +57,9 @@ ASSUMPTIONS = [
     "operands, balanced q/Q per stream/form, fonts/forms/colour spaces that exist, colour components in [0,1], "
     "forms inherit the caller's graphics state (a page whose Do reaches a form that shows text before any font was selected is outside the domain)",
     "graphicstate.ncolor None is read as 'initial colour'",
+    "operators outside the property's list: the text model admits them by Figure 9 placement (paths/painting/clipping/sh not "
+    "inside a text object) and operand count; the path-object sub-grammar (construction -> clipping -> painting) is not "
+    "enforced; inline images BI..ID..EI are covered at token level by C05_unlisted_frame only (not generated, not in the byte-level front end)",
     "cs/CS with a name that is neither a ColorSpace resource of the current content nor a device colour space is ignored "
     "(a family name that needs parameters, and Pattern, are outside the domain); a form that is already being painted "
     "is not painted again by pdfminer - the text model gives such a page no meaning (outside the domain)",
@@ -89,6 +93,26 @@ STATEMENT_STATUS: Dict[str, str] = {
     "C05_string_displacement_vertical": "proved: render_string_vertical = 9.4.4 (ty not scaled by Th)",
     "C05_font_scale": "proved: pdfminer's hscale/vscale (constants, Type 3 FontMatrix) are the scales of 9.6.5",
     "C05_glyph": "proved: LTChar.__init__ = glyph of the text model, horizontal and vertical writing",
+    "C05_glyph_bbox": "proved: for every matrix (negative scale, rotation, skew, singular) LTChar.bbox = bounding box of the "
+                      "four transformed corners of the text-space glyph box (contains them, every side touches one), the "
+                      "swaps never fire, size = its height / width >= 0",
+    "C05_glyph_bbox_axis": "proved: closed form for [a 0 0 d e f], any signs; size = |d*Tfs|",
+    "C05_glyph_bbox_quarter": "proved: closed form for [0 b c 0 e f]; size = |b*adv|",
+    "C05_glyph_upright": "proved: LTChar.upright (regenerated) = the text model's uprightOf(Trm, Th) for every matrix; the "
+                         "field is part of the glyph record C05_program equates",
+    "C05_upright_axis": "proved: axis-parallel matrix, Th > 0: upright <-> a*d > 0",
+    "C05_upright_quarter": "proved: a quarter turn is never upright",
+    "C05_unlisted_frame": "proved (unconditional): any keyword outside the 33 listed operators (paths, painting, clipping, "
+                          "marked content, BX/EX, sh, general graphics state, BI/ID/EI, unknown) shows no glyph and changes "
+                          "nothing of the interpreter/device state but takes its operands off the operand stack",
+    "C05_unlisted_noop": "proved: a neutral operator (ISO Tables 57, 59-61, 77, 320, 32) with at most its operands leaves the "
+                         "interpreter exactly as it was (arity from the regenerated do_* table)",
+    "C05_unlisted_erase": "proved: deleting every unlisted operator from a program the text model gives a meaning to leaves "
+                          "final state and glyphs unchanged (induction over programs)",
+    "C05_unlisted_erase_page": "proved: ... for pages, and the interpreter reports exactly the glyphs of the page without them",
+    "C05_unlisted_spec": "proved: where the text model admits such an operator it changes nothing and shows nothing",
+    "C05_unlisted_admitted": "proved: the text model admits each of them with <= its ISO operand count - all at page level, "
+                             "general graphics state / marked content / BX EX also inside a text object",
 }
 
 TOL = F(1, 2 ** 30)
@@ -111,6 +135,14 @@ ALL_OPS = sorted(SIG) + list(DYN)
 TEXT_STATE = ("Tc", "Tw", "Tz", "TL", "Tf", "Tr", "Ts")
 COLOUR = ("g", "G", "rg", "RG", "k", "K", "cs", "CS", "sc", "scn", "SC", "SCN")
 POSITION = ("Td", "TD", "Tm", "T*")
+# operators outside the property's list (ISO Tables 57, 59-61, 77, 320, 32): number of operands.  The text model gives
+# them no effect on text state, CTM, colours or glyphs (Spec/TextModel.lean `neutralTable`; C05_unlisted_*).
+NEUTRAL = {"w": 1, "J": 1, "j": 1, "M": 1, "d": 2, "ri": 1, "i": 1, "gs": 1,
+           "m": 2, "l": 2, "c": 6, "v": 4, "y": 4, "h": 0, "re": 4,
+           "S": 0, "s": 0, "f": 0, "F": 0, "f*": 0, "B": 0, "B*": 0, "b": 0, "b*": 0, "n": 0,
+           "W": 0, "W*": 0, "sh": 1, "MP": 1, "DP": 2, "BMC": 1, "BDC": 2, "EMC": 0, "BX": 0, "EX": 0}
+NEUTRAL_IN_TEXT = ("w", "J", "j", "M", "d", "ri", "i", "gs", "MP", "DP", "BMC", "BDC", "EMC", "BX", "EX")
+NEUTRAL_PAGE_ONLY = tuple(k for k in NEUTRAL if k not in NEUTRAL_IN_TEXT)
 SHOW = ("Tj", "TJ", "'", '"')
 DEVICE_CS = {"DeviceGray": 1, "DeviceRGB": 3, "DeviceCMYK": 4}
 CS_POOL = ["CS0", "CS1", "Cs2", "Sp"]          # resource names of colour spaces, shared by all pages / forms / cases
@@ -333,6 +365,18 @@ class Gen:
             if self.wild and rng.random() < 0.2:
                 el.insert(rng.randint(0, len(el)), rng.choice([["/", "x"], ["z"]]))
             return [["a", el]]
+        if op in NEUTRAL:
+            if op == "d":
+                return [["a", [num(rng.randint(0, 6)) for _ in range(rng.randint(0, 3))]], num(rng.randint(0, 4))]
+            if op in ("ri", "gs", "sh", "MP", "BMC"):
+                return [["/", rng.choice(["GS0", "Sh0", "Span", "P", "Perceptual", "F1"])]]
+            if op in ("DP", "BDC"):
+                return [["/", rng.choice(["OC", "P", "Span"])], ["/", rng.choice(["MC0", "Pr1"])]]
+            if op in ("J", "j"):
+                return [num(rng.randint(0, 2))]
+            if op in ("w", "M", "i"):
+                return [num(dy(rng, 0, 12, 4))]
+            return [num(dy(rng, -50, 300, 4)) for _ in range(NEUTRAL[op])]
         if op == "Do":
             xn = list(res["xobjs"])
             name = rng.choice(xn) if xn else "Nox"
@@ -403,7 +447,9 @@ class Gen:
             if self.wild and r < 0.12:
                 op = rng.choice(ALL_OPS + ["xyz", "BX", "EX", "n"])
             elif in_text:
-                if r < 0.42:
+                if rng.random() < 0.1:
+                    op = rng.choice(NEUTRAL_IN_TEXT)
+                elif r < 0.42:
                     op = rng.choice(SHOW)
                 elif r < 0.67:
                     op = rng.choice(POSITION)
@@ -414,7 +460,9 @@ class Gen:
                 else:
                     op = "ET"
             else:
-                if r < 0.3:
+                if rng.random() < 0.16:
+                    op = rng.choice(NEUTRAL_PAGE_ONLY if rng.random() < 0.7 else NEUTRAL_IN_TEXT)
+                elif r < 0.3:
                     op = "BT"
                 elif r < 0.42:
                     op = "q"
@@ -429,7 +477,7 @@ class Gen:
                     op = rng.choice(COLOUR)
                 else:
                     op = "Do" if res["xobjs"] else "BT"
-            if op in SIG or op in DYN:
+            if op in SIG or op in DYN or op in NEUTRAL:
                 args = self.args_for(op, res, st)
             else:
                 args = []
@@ -747,7 +795,7 @@ def run_impl(case: dict):
                     else:
                         cc = [F(col)]
                     out.append({"m": [F(x) for x in o.matrix], "adv": F(o.adv), "bbox": [F(x) for x in o.bbox],
-                                "size": F(o.size), "font": o.fontname, "col": cc})
+                                "size": F(o.size), "font": o.fontname, "col": cc, "upright": bool(o.upright)})
                 elif isinstance(o, LTFigure):
                     walk(o)
         walk(lt)
@@ -856,7 +904,9 @@ def observe(trm, font: dict, tfs, th, rise, code: int, col) -> dict:
     y0, y1 = min(p[1] for p in pts), max(p[1] for p in pts)
     return {"m": list(trm), "adv": adv, "bbox": [x0, y0, x1, y1],
             "size": (x1 - x0) if font.get("kind") == "cidv" else (y1 - y0), "font": font["name"],
-            "col": None if col is None else list(col)}
+            "col": None if col is None else list(col),
+            # not rotated, not mirrored (th = Th/100; its sign decides like Th's)
+            "upright": trm[0] * trm[3] * th > 0 and trm[1] * trm[2] <= 0}
 
 
 class SpecMachine:
@@ -889,6 +939,16 @@ class SpecMachine:
         return g
 
     def step(self, op, args, g, txt, stack, res, depth):
+        if op in NEUTRAL:
+            # general graphics state, paths, painting, clipping, shading, marked content, BX/EX: nothing of the text
+            # model depends on them; Figure 9 admits only some of them inside a text object
+            if txt is not None and op not in NEUTRAL_IN_TEXT:
+                raise Out("context")
+            if any(a[0] == "b" for a in args):
+                raise Out("boolean operand")
+            if len(args) > NEUTRAL[op]:
+                raise Out("excess operands")
+            return g, txt
         if op not in SIG and op not in DYN:
             raise Out("operator " + op)
         page_ok = op in ("q", "Q", "cm", "Do", "BT") or op in TEXT_STATE or op in COLOUR
@@ -1066,6 +1126,8 @@ def glyph_diff(impl: dict, exp: dict) -> Optional[str]:
             return "bbox[%d]" % i
     if not close(impl["size"], exp["size"]):
         return "size"
+    if impl.get("upright") != exp.get("upright"):
+        return "upright"
     return None
 
 
@@ -1083,7 +1145,7 @@ def show_glyph(g: Optional[dict]) -> Any:
     if g is None:
         return None
     return {"m": [fs(x) for x in g["m"]], "adv": fs(g["adv"]), "bbox": [fs(x) for x in g["bbox"]], "size": fs(g["size"]),
-            "font": g["font"], "col": None if g["col"] is None else [fs(x) for x in g["col"]]}
+            "font": g["font"], "col": None if g["col"] is None else [fs(x) for x in g["col"]], "upright": g.get("upright")}
 
 
 # ------------------------------------------------------------------------------------------ driver protocol
@@ -1196,7 +1258,8 @@ def parse_reply(line: str):
             nums = [F(x) for x in w[:12]]
             col = None if w[13] == "-" else [F(x) for x in w[13].split(",")]
             gl.append({"m": nums[:6], "adv": nums[6], "bbox": nums[7:11], "size": nums[11],
-                       "font": bytes.fromhex(w[12]).decode("latin-1") if w[12] != "-" else "", "col": col})
+                       "font": bytes.fromhex(w[12]).decode("latin-1") if w[12] != "-" else "", "col": col,
+                       "upright": w[14] == "u1"})
     return ("ok", gl)
 
 
@@ -1364,6 +1427,20 @@ def flush(ctx: C.Ctx, batch: list) -> None:
             ctx.branch("out:" + psp[1])
         for t in tags_for(case, 0, "", None, None)["illtyped_ops"]:
             ctx.branch("ill:" + t)
+        if im[0] == "ok":
+            # which kinds of glyph matrices the bbox comparison met (C05_glyph_bbox: every matrix)
+            for gl in im[1]:
+                a, b, c, d = gl["m"][:4]
+                if a * d - b * c == 0:
+                    kind = "singular"
+                elif b == 0 and c == 0:
+                    kind = "axis:" + ("+" if a > 0 else "-") + ("+" if d > 0 else "-")
+                elif a == 0 and d == 0:
+                    kind = "quarter-turn"
+                else:
+                    kind = "general"
+                ctx.branch("glyph-matrix:" + kind)
+                ctx.branch("upright:%s" % gl.get("upright"))
         # (0) the two spec implementations agree (Lean spec is the reference; the twin is the fallback oracle)
         twin_differs = False
         if lsp is not None:
@@ -1461,6 +1538,7 @@ def flush(ctx: C.Ctx, batch: list) -> None:
                 "position": "glyph matrix / box differs from the position the PDF text model assigns",
                 "adv": "glyph advance differs from the PDF text model",
                 "font": "glyph font differs from the PDF text model",
+                "upright": "glyph reported upright although rotated / mirrored (or the reverse)",
                 "colour": "glyph fill colour differs from the PDF text model",
                 "page-dependence": "the glyphs reported for a page depend on the pages interpreted before it"}[classify_field(field)]
         tags = tags_for(small, det[1] if isinstance(det[1], int) else -1, field, det[2], det[3])
@@ -1654,6 +1732,26 @@ def directed_cases() -> List[dict]:
                                                        ["BT", []], ["T*", []], ["Tj", [S("C D")]], ["ET", []], ["Q", []], ["BT", []],
                                                        ["Tj", [S("E")]], ["ET", []]]))}]
     c["name"] = "page-starts-from-a-fresh-state"
+    out.append(c)
+    # text between vector graphics, clipping, marked content and general graphics state operators, some of them
+    # with missing / ill-typed operands: none of them moves, recolours or drops a glyph (C05_unlisted_*)
+    c = json.loads(json.dumps(base))
+    Nm = lambda t: ["/", t]   # noqa: E731
+    c["prog"] = json.loads(json.dumps(
+        [["Tf", [Nm("F1"), N(10)]], ["Tc", [N(1)]], ["q", []], ["re", [N(0), N(0), N(300), N(300)]], ["W", []], ["n", []],
+         ["BMC", [Nm("Span")]], ["w", [N(2)]], ["d", [["a", [N(3), N(1)]], N(0)]], ["J", [N(1)]], ["j", [N(2)]], ["M", [N(4)]],
+         ["ri", [Nm("Perceptual")]], ["i", [N(1)]], ["gs", [Nm("GS0")]],
+         ["BT", []], ["BDC", [Nm("P"), Nm("MC0")]], ["Tm", [N(1), N(0), N(0), N(1), N(20), N(500)]], ["w", [N(7)]],
+         ["Tj", [S("AB")]], ["MP", [Nm("Pt")]], ["DP", [Nm("Pt"), Nm("Pr")]], ["d", [N(1)]], ["Tj", [S("C")]], ["EMC", []],
+         ["BX", []], ["EX", []], ["w", [Nm("x")]], ["ET", []], ["EMC", []],
+         ["m", [N(0), N(0)]], ["l", [N(50), N(50)]], ["c", [N(1), N(2), N(3), N(4), N(5), N(6)]], ["v", [N(1), N(2), N(3), N(4)]],
+         ["y", [N(1), N(2), N(3), N(4)]], ["h", []], ["S", []], ["re", [N(5), N(5)]], ["re", [N(1), N(1), N(-4), N(9)]], ["f*", []],
+         ["m", [N(1), Nm("x")]], ["l", [N(3), N(3)]], ["B", []], ["re", [N(0), N(0), N(1), N(1)]], ["b*", []],
+         ["m", [N(2), N(2)]], ["l", [N(4), N(2)]], ["s", []], ["m", [N(2), N(2)]], ["f", []], ["m", [N(2), N(2)]], ["F", []],
+         ["m", [N(2), N(2)]], ["B*", []], ["m", [N(2), N(2)]], ["l", [N(4), N(8)]], ["b", []], ["W*", []], ["n", []],
+         ["sh", [Nm("Sh0")]], ["l", [["z"], N(2)]], ["Q", []],
+         ["BT", []], ["Td", [N(5), N(6)]], ["Tj", [S("D")]], ["ET", []]]))
+    c["name"] = "text-among-unlisted-operators"
     out.append(c)
     return out
 
